@@ -55,6 +55,7 @@ type Frame struct {
 	phiEdge   map[phiEdgeKey]Term
 	backStates map[*ssa.BasicBlock][]*State
 	siteOrd   map[*ssa.CallCommon]int // ordinal of a call site among the calls of the same callee, in source order
+	stackIDs  []Term                  // object ids of this activation's non-escaping local aggregates
 }
 
 func (fr *Frame) oblName(n string) string {
@@ -540,6 +541,39 @@ func (fr *Frame) havocComps(st *State, comps []string, pre *State) {
 		cur := st.heap[name]
 		fc.usesRootid = true
 		fc.emit(fmt.Sprintf("(assert (forall ((q Ptr)) (! (=> (< (rootid q) %s) (= (select %s q) (select %s q))) :pattern ((select %s q)))))", pre.nextID.S, cur.S, old.S, cur.S))
+	}
+}
+
+// protectStack states that a call cannot have changed the non-escaping locals of the
+// activations on the current inlining chain.
+func (fr *Frame) protectStack(st *State, pre *State, comps []string) {
+	fc := fr.fc
+	var ids []Term
+	for f := fr; f != nil; f = f.parent {
+		ids = append(ids, f.stackIDs...)
+	}
+	if len(ids) == 0 {
+		return
+	}
+	for _, c := range comps {
+		name := strings.TrimPrefix(c, "~")
+		if strings.HasPrefix(name, "FX_") {
+			continue
+		}
+		cur, okc := st.heap[name]
+		old, oko := pre.heap[name]
+		if !okc || !oko || cur.S == old.S || !fc.declConst[cur.S] {
+			continue
+		}
+		var conds []string
+		for _, id := range ids {
+			conds = append(conds, fmt.Sprintf("(= (p_root q) %s)", id.S))
+		}
+		c := conds[0]
+		if len(conds) > 1 {
+			c = "(or " + strings.Join(conds, " ") + ")"
+		}
+		fc.emit(fmt.Sprintf("(assert (forall ((q Ptr)) (! (=> %s (= (select %s q) (select %s q))) :pattern ((select %s q)))))", c, cur.S, old.S, cur.S))
 	}
 }
 
